@@ -82,8 +82,10 @@ def provenance(body, operand_or_place, bb, idx, through=DEFAULT_THROUGH, depth=4
     local = place[0]
     fields = place_fields(place) + path
     key = (local, bb, idx, tuple(fields))
-    if key in _seen or depth <= 0:
-        return [Root('other', 'cycle/depth _%d' % local, fields, (bb, idx))]
+    if key in _seen:
+        return []          # already being explored on this query: its roots are reported by the first visit
+    if depth <= 0:
+        return [Root('other', 'depth _%d' % local, fields, (bb, idx))]
     _seen.add(key)
     defs = reaching_defs(body, local, bb, idx)
     roots = []
